@@ -657,9 +657,12 @@ func (f *frame) convert(x *ssa.Convert) {
 			hn := elemHeapName(et)
 			h := vc.lookup(f.st, hn, "(Array Int (Array Int Int))")
 			f.assume(eq(sx("slen", s), sLen(b)))
-			q := vc.freshName("strconv")
-			vc.emit(fmt.Sprintf("(define-fun %s () Bool (forall ((i Int)) (! (=> (and (<= 0 i) (< i (s-len %s))) (= (sat %s i) (select (select %s (s-arr %s)) (+ (s-off %s) i)))) :pattern ((sat %s i)))))", q, b, s, h, b, b, s))
-			f.assume(q)
+			f.assume(vc.define("strconv", "Bool", vc.quantIdx(
+				func(i string) string { return fmt.Sprintf("(and (<= 0 %s) (< %s (s-len %s)))", i, i, b) },
+				func(i string) string {
+					return fmt.Sprintf("(= (sat %s %s) (select (select %s (s-arr %s)) (+ (s-off %s) %s)))", s, i, h, b, b, i)
+				},
+				func(i string) string { return fmt.Sprintf("(sat %s %s)", s, i) })))
 			f.vals[x] = Val{t: s}
 			return
 		}
@@ -673,7 +676,7 @@ func (f *frame) convert(x *ssa.Convert) {
 			hs := "(Array Int (Array Int Int))"
 			h := vc.lookup(f.st, hn, hs)
 			row := vc.fresh("row", "(Array Int Int)")
-			vc.emit(fmt.Sprintf("(assert (forall ((i Int)) (! (= (select %s i) (sat %s i)) :pattern ((select %s i)))))", row, s, row))
+			vc.rowAxiom(row, func(i string) string { return sx("sat", s, i) })
 			f.st = vc.store(f.st, hn, hs, sx("store", h, arr, row))
 			f.setVal(x, to, sx("mk-slice", arr, "0", sx("slen", s), sx("slen", s)))
 			return
@@ -721,9 +724,10 @@ func (f *frame) sliceOp(x *ssa.Slice) {
 		f.oblige("safety", "slice:"+f.keyOf(x.X, x.Pos()), nil, and(sx("<=", "0", lo), sx("<=", lo, hi), sx("<=", hi, sx("slen", s))), x.Pos())
 		r := vc.fresh("substr", "Int")
 		f.assume(eq(sx("slen", r), sx("-", hi, lo)))
-		q := vc.freshName("substr")
-		vc.emit(fmt.Sprintf("(define-fun %s () Bool (forall ((i Int)) (! (=> (and (<= 0 i) (< i (- %s %s))) (= (sat %s i) (sat %s (+ %s i)))) :pattern ((sat %s i)))))", q, hi, lo, r, s, lo, r))
-		f.assume(q)
+		f.assume(vc.define("substr", "Bool", vc.quantIdx(
+			func(i string) string { return fmt.Sprintf("(and (<= 0 %s) (< %s (- %s %s)))", i, i, hi, lo) },
+			func(i string) string { return fmt.Sprintf("(= (sat %s %s) (sat %s (+ %s %s)))", r, i, s, lo, i) },
+			func(i string) string { return fmt.Sprintf("(sat %s %s)", r, i) })))
 		f.vals[x] = Val{t: r}
 	case *types.Pointer:
 		a := u.Elem().Underlying().(*types.Array)
